@@ -185,6 +185,8 @@ class Ctx:
         if k == 'cast':
             return self.itype(e[1])
         if k == 'member':
+            if e[1][0] == 'this':
+                return self.fields.get(e[2], '?')
             t = self.typeof(e[1])
             if e[3]:
                 if tkind(t) in ('It', 'Ptr'):
@@ -239,6 +241,8 @@ class Ctx:
             return self.typeof(e[2])
         if k == 'init':
             return self.itype(e[1]) if e[1] else '?'
+        if k == 'fold':
+            return 'bool'
         if k == 'call':
             return self.call_type(e)
         return '?'
@@ -344,6 +348,8 @@ class Ctx:
         k = e[0]
         if k == 'id':
             return self.bases.get(e[1])
+        if k == 'member' and e[1][0] == 'this':
+            return self.bases.get(e[2])
         if k == 'paren':
             return self.base_of(e[1])
         if k == 'bin':
@@ -560,6 +566,25 @@ class Ctx:
             return self.em(e[1]) + ', ' + self.em(e[2])
         if k == 'call':
             return self.em_call(e)
+        if k == 'fold_placeholder':
+            pass
+        if k == 'fold':
+            # unary right fold over a parameter pack: ( E op ... ), expanded for each pack value
+            pack = getattr(self, 'pack', None)
+            if not pack:
+                raise ExtractionBreak('fold expression without a pack binding')
+            (pname, values), = pack.items()
+            self.fire('fold_expression')
+            outs = []
+            saved = self.consts.get(pname)
+            for v in values:
+                self.consts[pname] = (str(v), 'size_t')
+                outs.append('(' + self.em(e[2]) + ')')
+            if saved is None:
+                del self.consts[pname]
+            else:
+                self.consts[pname] = saved
+            return (' %s ' % e[1]).join(outs)
         if k == 'throwexpr':
             raise ExtractionBreak('throw inside expression')
         if k == 'lambda':
